@@ -237,6 +237,8 @@ class ExtractSingle(Contract):
 
     def ensures(self, c, old, result, **b):
         eng = c.eng
+        if eng.ctx_mode == "assume":
+            return []  # ghost clauses are exported to callers through their hooks, not assumed as formulas
         files = b["files"]
         n = SInt(V.uf("len", V.vsort(), z3.IntSort(), z3.IntSort())(files.t, z3.IntVal(0)))
         return [
@@ -319,4 +321,221 @@ class WorkerCheck(Contract):
         if c.eng.ctx_mode != "assume":
             # ghost clause: exported to callers through their `contract-call` hook (they add SUMJ(list) to their offset)
             out.append(("consumes-sum-of-sizes", c.eng.ghost["consumed"] == SUMJ(tgt)))
+        return out
+
+
+@contract
+class ExtractSingleOuter(Contract):
+    """error propagation of the per-folder worker entry point (C13): without an exception queue every exception
+    reaches the caller; with a queue the call never raises and every exception is queued exactly once.
+    Also: the folder is decoded from `src_start` (seek before decoding) - C06/C09/C12."""
+
+    target = PY + "Worker.extract_single"
+    props = ("C13", "C06", "C12")
+    abstract = True
+    self_class = ("py7zr.py7zr", "Worker")
+    track_raises = True
+    pure = ("str",)
+    noraise = ("put", "exc_info")  # queue.Queue.put on an unbounded queue and sys.exc_info() do not raise (assumed)
+    assumptions = ("queue.Queue.put (unbounded queue) and sys.exc_info() do not raise",)
+
+    def setup(self, c):
+        case = c.choice(2)
+        exc_q = None if case == 0 else c.opq("exc_q")
+        if exc_q is not None:
+            c.assume(Not(eq(exc_q, None)))
+        files = c.opq("files")
+        c.eng.ghost["caught"] = 0
+        c.eng.ghost["queued"] = []
+        return {"self_": c.opq("self"), "fp": c.opq("fp"), "files": files, "path": c.opq("path"), "src_start": c.opq("src_start"), "src_end": c.opq("src_end"), "q": c.opq("q"), "exc_q": exc_q, "skip_notarget": c.bool("skip_notarget")}
+
+    def raises(self):
+        # an exception may leave the call only when no exception queue was given
+        return [RaiseSpec("Exception", when=lambda c, **b: b["exc_q"] is None)]
+
+    def hooks(self):
+        def on_except(c, ev):
+            c.eng.ghost["caught"] = c.eng.ghost["caught"] + 1
+
+        def on_put(c, ev):
+            if ev.recv is c.bound["exc_q"]:
+                c.eng.ghost["queued"].append(ev)
+
+        def on_inner(c, ev):
+            # the folder is decoded after positioning the (own) file handle at src_start
+            seeks = [e for e in c.eng.trace if e.kind == "call" and e.name == "seek"]
+            ok = bool(seeks) and seeks[-1].args and True
+            c.oblig("assert", "seek-to-folder-start-before-decoding", And(bool(ok), eq(seeks[-1].args[0], c.bound["src_start"])) if ok else False, props=("C06", "C12", "C09"))
+            c.oblig("assert", "decodes-on-the-handle-it-positioned", eq(ev.args[1], seeks[-1].recv) if ok else False, props=("C13", "C06"))
+
+        return {("except", None): [on_except], ("call", "put"): [on_put], ("contract-call", PY + "Worker._extract_single"): [on_inner]}
+
+    def ensures(self, c, old, result, **b):
+        eng = c.eng
+        if eng.ctx_mode == "assume":
+            return []
+        out = []
+        if b["exc_q"] is not None:
+            out.append(("every-exception-queued-exactly-once", len(eng.ghost["queued"]) == eng.ghost["caught"] and eng.ghost["caught"] <= 1, ("C13",)))
+        else:
+            out.append(("nothing-swallowed", eng.ghost["caught"] == 0, ("C13",)))
+        return out
+
+
+import ast as _ast  # noqa: E402
+
+
+@contract
+class WorkerExtract(Contract):
+    """dispatch of folders to workers (C06, C09, C12, C13): every decode goes through extract_single (which positions
+    the handle); folder i is decoded from src_start + packpositions[i] to src_start + packpositions[i+1] with its own
+    member list; a folder is skipped only when none of its members has a target; parallel workers get the file *name*
+    (own handle) and the exception queue, and the queue is consulted before returning."""
+
+    target = PY + "Worker.extract"
+    props = ("C13", "C06", "C09", "C12")
+    abstract = True
+    self_class = ("py7zr.py7zr", "Worker")
+    pure = ("get", "str")
+    stable_attrs = ("header", "main_streams", "packinfo", "unpackinfo", "packpositions", "numfolders", "folders", "files", "src_start", "target_filepath", "concurrent", "emptystream", "id", "name", "extract_single")
+    noraise = ("Queue",)
+    opaque = ("py7zr:Worker.extract_single",)  # recorded as an effect call; its own contract: ExtractSingleOuter
+    frame_preserving = ("extract_single", "start", "join", "append", "empty", "open", "Queue", "concurrent")
+    assumptions = (
+        "abstract mode: header / packinfo / folder attributes are stable during the call; list comprehensions over opaque lists are opaque functions of the iterable",
+        "threading.Thread: join() returns after the target has finished and workers share the parent's queue object; multiprocessing.Process: the child works on a COPY of the parent's objects (DESIGN.md 6.3)",
+    )
+
+    def setup(self, c):
+        par = c.bool("parallel")
+        c.eng.ghost["calls"] = []
+        return {"self_": c.opq("self"), "fp": c.opq("fp"), "path": c.opq("path"), "parallel": par, "skip_notarget": c.bool("skip_notarget"), "q": c.opq("q")}
+
+    def raises(self):
+        return [RaiseSpec("Exception")]
+
+    def _expected(self, c, i, plus):
+        from pyvc import builtins_model as B
+
+        eng = c.eng
+        me = c.bound["self_"]
+        positions = attr(attr(attr(attr(me, "header"), "main_streams"), "packinfo"), "packpositions")
+        idx = i + plus
+        return B.binop(eng, _ast.Add(), attr(me, "src_start"), B.get_item(eng, positions, idx, None), None)
+
+    def hooks(self):
+        def on_inner(c, ev):
+            c.oblig("assert", "no-decoding-without-positioning", False, props=("C12", "C06"))
+
+        def on_es(c, ev):
+            eng = c.eng
+            eng.ghost["calls"].append(ev)
+            Lp = eng.ghost.get("loop")
+            me = c.bound["self_"]
+            if Lp is None or not eng.ghost.get("in_loop"):
+                return
+            folders = attr(attr(attr(attr(me, "header"), "main_streams"), "unpackinfo"), "folders")
+            from pyvc import builtins_model as B
+
+            i = Lp.i
+            fi = B.get_item(eng, folders, i, None)
+            c.oblig("assert", "folder-member-list@extract_single", eq(ev.args[1], attr(fi, "files")), props=("C06", "C09"))
+            c.oblig("assert", "folder-start-offset@extract_single", eq(ev.args[3], self._expected(c, i, 0)), props=("C06",))
+            c.oblig("assert", "folder-end-offset@extract_single", eq(ev.args[4], self._expected(c, i, 1)), props=("C06",))
+
+        def on_task(c, ev):
+            eng = c.eng
+            Lp = eng.ghost.get("loop")
+            args = ev.kwargs.get("args")
+            ok = isinstance(args, tuple) and len(args) == 8
+            c.oblig("assert", "worker-task-shape@concurrent", bool(ok), props=("C13",))
+            if not ok:
+                return
+            fname = eng.frames[0].env.get("filename")
+            excq = eng.frames[0].env.get("exc_q")
+            c.oblig("assert", "worker-opens-its-own-handle@concurrent", bool(args[0] is fname and not (args[0] is c.bound["fp"])), props=("C13",))
+            c.oblig("assert", "worker-gets-the-exception-queue@concurrent", bool(excq is not None and args[6] is excq), props=("C13",))
+            c.oblig("assert", "worker-gets-the-skip-flag@concurrent", bool(args[7] is c.bound["skip_notarget"]), props=("C04", "C09"))
+            c.oblig("assert", "worker-target-is-extract_single@concurrent", eq(ev.kwargs.get("target"), attr(c.bound["self_"], "extract_single")), props=("C13",))
+            me = c.bound["self_"]
+            folders = attr(attr(attr(attr(me, "header"), "main_streams"), "unpackinfo"), "folders")
+            from pyvc import builtins_model as B
+
+            if Lp is not None:
+                fi = B.get_item(eng, folders, Lp.i, None)
+                c.oblig("assert", "folder-member-list@concurrent", eq(args[1], attr(fi, "files")), props=("C06", "C09"))
+                c.oblig("assert", "folder-start-offset@concurrent", eq(args[3], self._expected(c, Lp.i, 0)), props=("C06",))
+                c.oblig("assert", "folder-end-offset@concurrent", eq(args[4], self._expected(c, Lp.i, 1)), props=("C06",))
+            eng.ghost["tasks_this_iter"] = eng.ghost.get("tasks_this_iter", 0) + 1
+
+        return {("contract-call", PY + "Worker._extract_single"): [on_inner], ("call", "_extract_single"): [on_inner], ("call", "extract_single"): [on_es], ("call", "concurrent"): [on_task]}
+
+    def loops(self):
+        def mk(name, target, parallel):
+            def inv(c, Lp):
+                return []
+
+            def step(c, Lp):
+                eng = c.eng
+                eng.ghost["loop"] = Lp
+                eng.ghost["in_loop"] = True
+                eng.ghost["iter_start"] = len(eng.trace)
+                eng.ghost["tasks_this_iter"] = 0
+                return []
+
+            def asserts(c, Lp):
+                eng = c.eng
+                me = c.bound["self_"]
+                evs = eng.trace[eng.ghost["iter_start"]:]
+                started = [e for e in evs if e.kind == "call" and e.name in ("extract_single", "concurrent")]
+                out = []
+                if not started:
+                    # the folder was skipped: only allowed when skipping is on and none of its members has a target
+                    anys = [e for e in evs if e.kind == "pure" and e.name == "any"]
+                    comps = [e for e in evs if e.kind == "pure" and e.name == "listcomp"]
+                    from pyvc import builtins_model as B
+
+                    folders = attr(attr(attr(attr(me, "header"), "main_streams"), "unpackinfo"), "folders")
+                    fi = B.get_item(eng, folders, Lp.i, None)
+                    ok = False
+                    for a in anys:
+                        for cp in comps:
+                            if a.args[0] is cp.result and "target_filepath.get(f.id, None)" in cp.kwargs.get("text", ""):
+                                ok = Or(ok, And(eq(cp.args[0], attr(fi, "files")), Not(a.result), c.bound["skip_notarget"]))
+                    out.append(("folder-skipped-only-without-targets", ok))
+                else:
+                    out.append(("one-worker-per-folder", len(started) == 1))
+                eng.ghost["in_loop"] = False
+                return out
+
+            return LoopSpec(name, inv, target=target, unfold_step=step, asserts=asserts, cells={"concurrent_tasks": "opq"})
+
+        def invj(c, Lp):
+            return []
+
+        return {
+            "py7zr:Worker.extract#loop0": mk("for-i-sequential", "i in range(numfolders)", False),
+            "py7zr:Worker.extract#loop1": mk("for-i-parallel", "i in range(numfolders)", True),
+            "py7zr:Worker.extract#loop2": LoopSpec("for-p-join", invj, target="p in concurrent_tasks"),
+        }
+
+    def ensures(self, c, old, result, **b):
+        eng = c.eng
+        if eng.ctx_mode == "assume":
+            return []
+        out = []
+        tr = eng.trace
+        tasks = [e for e in tr if e.kind == "call" and e.name == "concurrent"]
+        joins = [e for e in tr if e.kind == "call" and e.name == "join"]
+        empties = [e for e in tr if e.kind == "call" and e.name == "empty"]
+        took_parallel = any(e.kind == "call" and e.name == "Queue" for e in tr)
+        if took_parallel:
+            # the exception queue is consulted after the joins and a normal return means it was empty
+            ok = bool(empties) and truthy(empties[-1].result)
+            out.append(("queue-consulted-before-normal-return", ok, ("C13",)))
+            # lemma `worker error reaches the caller`: holds under the Thread contract (shared queue object) by the clause
+            # above; under the Process contract the child fills a COPY of exc_q, so an empty parent queue says nothing:
+            # not provable -> known finding F05 (self.concurrent is Process when mp=True)
+            mp_process = SBool(V.uf("concurrent_is_process", V.vsort(), z3.BoolSort())(b["self_"].t))
+            out.append(("F05:worker-error-raised-under-process-workers", Not(mp_process), ("C13",), {"kind": "finding"}))
         return out
